@@ -99,7 +99,7 @@ def _one(prop, repo_root, base_tmp, v):
     edits = v.get("edits") or [(v["old"], v["new"])]
     new_src = src
     for old, new in edits:
-        if new_src.count(old) != 1:
+        if new_src.count(old) != 1 and not (v.get("all") and new_src.count(old) > 1):
             return ("skipped", v, "anchor text occurs %d times" % new_src.count(old))
         new_src = new_src.replace(old, new)
     try:
